@@ -1,7 +1,7 @@
 (* C06 property theorems: statements + `exact lemma` only.
    External behaviour (net.ParseIP, net.ResolveIPAddr, IP.String, regexp matching) is universally
    quantified; what is assumed about Go's net package appears as explicit hypotheses. *)
-From CJ Require Import Common.Base C06.Model C06.Proofs C07.Model C06.Dialed.
+From CJ Require Import Common.Base C06.Model C06.Proofs C06.IPText C06.IPTextProofs C07.Model C06.Dialed.
 
 (* An accepted covert string is the literal text of the single address the resolver returned for
    its host; that address is a real IP, not blocked by policy (inside the allowlist when one is
@@ -96,11 +96,11 @@ Print Assumptions C06_split_join.
 Theorem C06_permitted_literal_unchanged :
   forall parse_ip ip_str re_match,
     (forall s, split_host_port s <> None -> parse_ip s = None) ->
-    (forall a, valid_ip a = true -> no_brackets (ip_str a) = true) ->
-    (forall a a', norm a = norm a' -> ip_str a = ip_str a') ->
+    (forall a, valid_ip a = true -> wf_bytes a = true -> no_brackets (ip_str a) = true) ->
+    (forall a a', valid_ip a = true -> valid_ip a' = true -> norm a = norm a' -> ip_str a = ip_str a') ->
     forall resolve pol a z port,
       literal_law ip_str resolve ->
-      valid_ip a = true -> no_brackets z = true -> port_ok port = true ->
+      valid_ip a = true -> wf_bytes a = true -> (addr_is_v4 a = true -> z = []) -> no_brackets z = true -> port_ok port = true ->
       blocked pol a = false ->
       dom_blocked re_match pol (ip_text ip_str a z) = false ->
       let s := join_host_port (ip_text ip_str a z) port in
@@ -113,9 +113,9 @@ Print Assumptions C06_permitted_literal_unchanged.
    address equal (up to the 4/16-byte form) to the one that passed the policy. *)
 Theorem C06_dial_target_is_checked :
   forall ip_str : ipraw -> bytes,
-    (forall a, valid_ip a = true -> no_brackets (ip_str a) = true) ->
+    (forall a, valid_ip a = true -> wf_bytes a = true -> no_brackets (ip_str a) = true) ->
     forall parse_ip re_match resolve resolve_later pol s out lk,
-      zone_law resolve -> literal_law ip_str resolve_later ->
+      zone_law resolve -> resolver_wf resolve -> literal_law ip_str resolve_later ->
       parse_or_resolve parse_ip resolve ip_str re_match pol s = (Some out, lk) ->
       exists host port a z a',
         split_host_port s = Some (host, port) /\ resolve host = Some (a, z) /\
@@ -130,9 +130,9 @@ Print Assumptions C06_dial_target_is_checked.
    for that same registration at admission, and dialling it reaches the checked address. *)
 Theorem C06_checked_is_dialed :
   forall (parse_ip : bytes -> option ipraw) (ip_str : ipraw -> bytes) (re_match : N -> bytes -> bool),
-    (forall a, valid_ip a = true -> no_brackets (ip_str a) = true) ->
+    (forall a, valid_ip a = true -> wf_bytes a = true -> no_brackets (ip_str a) = true) ->
     forall resolve resolve_later pol live cfg st r r',
-      zone_law resolve -> literal_law ip_str resolve_later ->
+      zone_law resolve -> resolver_wf resolve -> literal_law ip_str resolve_later ->
       In (Announce r') (snd (ingest (covert_fn parse_ip ip_str re_match resolve pol) live cfg st r)) ->
       In r' (visible_all (fst (ingest (covert_fn parse_ip ip_str re_match resolve pol) live cfg st r))) /\
       exists lk host port a z a',
@@ -143,3 +143,80 @@ Theorem C06_checked_is_dialed :
         norm a' = norm a /\ blocked pol a' = false.
 Proof. exact checked_is_dialed. Qed.
 Print Assumptions C06_checked_is_dialed.
+
+(* ------------------------------------------------------------------ textual forms, concretely (IPText.v)
+   netip.ParseAddr / net.ParseIP / IP.String / the literal branch of ResolveIPAddr are Gallina functions
+   compared with Go on every run; the assumptions G2, G4 (literal law), G5 become theorems. *)
+
+(* parse (print a) = a for every IPv4 address *)
+Theorem C06_parse_print_v4 :
+  forall a0 a1 a2 a3, a0 < 256 -> a1 < 256 -> a2 < 256 -> a3 < 256 ->
+    parse_addr (print4 [a0; a1; a2; a3]) = Some ([a0; a1; a2; a3], []).
+Proof. exact parse_addr_print4. Qed.
+Print Assumptions C06_parse_print_v4.
+
+(* parse (print a) = a for every IPv6 address (RFC 5952 text with "::"), and a zone never changes the IP *)
+Theorem C06_parse_print_v6_zone :
+  forall ip z, wf_ip ip -> length ip = 16%nat -> parse_addr (with_zone (print6 ip) z) = Some (ip, z).
+Proof. exact parse_addr_print6. Qed.
+Print Assumptions C06_parse_print_v6_zone.
+
+(* G2 and G5 for the concrete IP.String *)
+Theorem C06_ip_string_no_brackets :
+  forall a, valid_ip a = true -> wf_bytes a = true -> no_brackets (ip_str_c a) = true.
+Proof. exact ip_str_c_no_brackets. Qed.
+Print Assumptions C06_ip_string_no_brackets.
+
+Theorem C06_ip_string_norm :
+  forall a a', valid_ip a = true -> valid_ip a' = true -> norm a = norm a' -> ip_str_c a = ip_str_c a'.
+Proof. exact ip_str_c_norm. Qed.
+Print Assumptions C06_ip_string_norm.
+
+(* G4: resolving the printed text of any address (with its zone) gives that address back, whatever the
+   name system answers — names stay an arbitrary function *)
+Theorem C06_literal_law_concrete : forall names, literal_law ip_str_c (resolve_with names).
+Proof. exact literal_law_concrete. Qed.
+Print Assumptions C06_literal_law_concrete.
+
+(* G3 for literals: the zone is a piece of the host; for names it is a statement about the name system *)
+Theorem C06_zone_law_concrete :
+  forall names, (forall h a z, names h = Some (a, z) -> no_brackets z = true) -> zone_law (resolve_with names).
+Proof. exact zone_law_concrete. Qed.
+Print Assumptions C06_zone_law_concrete.
+
+(* The dial statement with NO assumption about Go's parsing and printing: admission and dial both use the
+   concrete ParseIP / IP.String / literal resolution; the name system at admission (names) and at dial time
+   (names_later) are arbitrary, unrelated functions.  What is asked of the admission-time resolver: zones
+   without brackets, answers made of bytes, no zone on IPv4. *)
+Theorem C06_dial_target_is_checked_concrete :
+  forall names names_later re_match pol s out lk,
+    zone_law (resolve_with names) -> resolver_wf (resolve_with names) ->
+    parse_or_resolve parse_ip_c (resolve_with names) ip_str_c re_match pol s = (Some out, lk) ->
+    exists host port a z a',
+      split_host_port s = Some (host, port) /\ resolve_with names host = Some (a, z) /\
+      valid_ip a = true /\ blocked pol a = false /\
+      dial_target (resolve_with names_later) out = Some (a', z, port) /\
+      norm a' = norm a /\ blocked pol a' = false.
+Proof.
+  intros names names_later re_match pol s out lk Hz Hwf.
+  exact (dial_target_is_checked_q ip_str_c ip_str_c_no_brackets parse_ip_c re_match (resolve_with names)
+           (resolve_with names_later) pol s out lk Hz Hwf (literal_law_concrete names_later)).
+Qed.
+Print Assumptions C06_dial_target_is_checked_concrete.
+
+(* A permitted canonical literal is returned unchanged, for the concrete functions and any name system.
+   The one residue of G1 is explicit: the joined text is not itself accepted by ParseIP (observed on every case). *)
+Theorem C06_permitted_literal_unchanged_concrete :
+  forall names re_match pol a z port,
+    valid_ip a = true -> wf_bytes a = true -> (addr_is_v4 a = true -> z = []) -> no_brackets z = true ->
+    port_ok port = true -> blocked pol a = false ->
+    dom_blocked re_match pol (ip_text ip_str_c a z) = false ->
+    let s := join_host_port (ip_text ip_str_c a z) port in
+    parse_ip_c s = None ->
+    fst (parse_or_resolve parse_ip_c (resolve_with names) ip_str_c re_match pol s) = Some s.
+Proof.
+  intros names re_match pol a z port.
+  exact (permitted_literal_unchanged_local parse_ip_c ip_str_c re_match ip_str_c_no_brackets ip_str_c_norm
+           (resolve_with names) pol a z port (literal_law_concrete names)).
+Qed.
+Print Assumptions C06_permitted_literal_unchanged_concrete.
